@@ -481,6 +481,35 @@ fn run(ctx: &mut Ctx) {
         }
         judge_history(ctx, &calls, &fn2, &sn2, "many-names");
     }
+    // big batches: hundreds to thousands of rules / functions / symbols in one call, names in shuffled (not sorted) order
+    let pool: Vec<&'static str> = (0..6_000).map(|i| leak(&format!("n{:05}", (i * 7919) % 100_000))).collect();
+    for round in 0..ctx.tier.of(3, 24) {
+        let size = *rng.pick(&[257usize, 300, 700, 1_500, 4_000]);
+        let mut names_: Vec<&'static str> = pool.clone();
+        rng.shuffle(&mut names_);
+        names_.truncate(size);
+        let probe: Vec<&'static str> = vec![names_[0], names_[size / 2], names_[size - 1], "n_absent"];
+        let mut with_dup = names_.clone();
+        let (i, j) = (rng.below(size / 2), size / 2 + rng.below(size / 2));
+        with_dup[j] = with_dup[i];
+        let histories: Vec<Vec<Call>> = vec![
+            vec![Call::Rules(names_.clone())],
+            vec![Call::Rule("first"), Call::Rules(names_.clone()), Call::Rule("last")],
+            vec![Call::Rules(names_[..size / 2].to_vec()), Call::Rules(names_[size / 2..].to_vec())],
+            vec![Call::Rules(with_dup.clone())],
+            vec![Call::Rule(names_[size - 1]), Call::Rules(names_.clone())],
+            vec![Call::Rules(names_.clone()), Call::Rule(names_[size / 3])],
+            vec![Call::Functions(names_[..size.min(1_500)].to_vec()), Call::Rules(names_.clone())],
+            vec![Call::Functions(with_dup[..].to_vec())],
+            vec![Call::Symbols(names_.iter().enumerate().map(|(k, n)| (*n, k as i128)).collect()), Call::Symbols(names_.iter().rev().take(size / 2).enumerate().map(|(k, n)| (*n, -(k as i128))).collect())],
+        ];
+        for (k, h) in histories.iter().enumerate() {
+            if (round * 9 + k) % 16 != ctx.shard % 16 && ctx.tier == Tier::Quick {
+                continue;
+            }
+            judge_history(ctx, h, &probe, &probe, "big-batches");
+        }
+    }
     ctx.rng = rng;
     names(ctx);
 }
